@@ -788,6 +788,11 @@ def _fold_value(fn, acc, block=None):
                 return n
         head = unparse(S0().visit(ast.parse(unparse(res(upd.right)), mode="eval").body))
         if head == unparse(res(init)):
+            if unparse(upd.right) == tgt:
+                # identity element function: the fold of the sequence itself (aliases of list-building locals resolved)
+                seq_ = env.get(base)
+                return ast.parse("reduce(operator.%s, %s)" % (_BINOPS[type(upd.op)], unparse(seq_) if seq_ is not None else base),
+                                 mode="eval").body
             return ast.parse("reduce(operator.%s, (%s for %s in %s))" % (_BINOPS[type(upd.op)], unparse(res(upd.right)), tgt, base),
                              mode="eval").body
     if isinstance(loop.target, ast.Name):
